@@ -254,6 +254,8 @@ type Witness struct {
 	RenderingLater string `json:"rendering_later"`
 	FirstDiffLine  string `json:"first_diff_line"`
 	Rule           string `json:"rule"`
+	SessionFirst   int    `json:"session_first,omitempty"` // multi-session replays: index into history+session
+	SessionLater   int    `json:"session_later,omitempty"`
 }
 
 func firstDiffLine(a, b string) (string, string) {
@@ -450,11 +452,14 @@ func buildPoolsCorpus(r *gen.Rng, s *Session) {
 // ---------- worker ----------
 
 type c10Violation struct {
-	Class   string   `json:"class"`
-	Replay  string   `json:"replay"`
-	Witness *Witness `json:"witness"`
-	Site    string   `json:"site"`
-	Seed    uint64   `json:"session_seed"`
+	Class     string   `json:"class"`
+	Replay    string   `json:"replay"`
+	Witness   *Witness `json:"witness"`
+	Site      string   `json:"site"`
+	Seed      uint64   `json:"session_seed"`
+	Worker    int      `json:"worker"`
+	Index     int      `json:"session_index"`
+	Canonical bool     `json:"canonical"`
 }
 
 type c10Stats struct {
@@ -678,7 +683,7 @@ func c10Main(args []string) {
 					st.CanonDigest[fmt.Sprintf("%016x", tk)] = h
 					if *isoOut != "" && !isoSeen[tk] && len(isoKeys) < *isoCap {
 						isoSeen[tk] = true
-						k := isoKey{TK: fmt.Sprintf("%016x", tk), Kind: "V", SchemaName: s.Schemas[si].Name, Schema: s.Schemas[si].Text, Hash: h, Rendering: firstN(o.Rendering, 2000), Session: sseed, Source: src, Op: o.Op, ObsKey: o.Key}
+						k := isoKey{TK: fmt.Sprintf("%016x", tk), Kind: "V", SchemaName: s.Schemas[si].Name, Schema: s.Schemas[si].Text, Hash: h, Rendering: firstN(o.Rendering, 2000), Session: sseed, Source: src, Op: o.Op, ObsKey: o.Key, Index: n}
 						if strings.HasPrefix(o.Key, "L|") {
 							k.Kind = "L"
 						} else {
@@ -719,6 +724,7 @@ func c10Main(args []string) {
 		st.DistinctKeys = len(global)
 		if w != nil {
 			v := reportC10(bad, w, *replayDir, *worker)
+			v.Worker, v.Index, v.Canonical = *worker, n, *canonical
 			st.Violations = append(st.Violations, v)
 			if !knownSet[v.Class] {
 				st.unknownViolations++
@@ -761,6 +767,7 @@ type isoKey struct {
 	Source     string `json:"source"`
 	Op         int    `json:"op"`
 	ObsKey     string `json:"obs_key"`
+	Index      int    `json:"session_index"` // n-th session of its worker
 }
 
 type isoMismatch struct {
@@ -769,27 +776,43 @@ type isoMismatch struct {
 	Rule     string `json:"rule"`
 }
 
-// evalIsolated computes the result for a key as the first library calls of
-// this process.
-func evalIsolated(k *isoKey) string {
-	var out string
+// isoResult is what a key evaluates to through each entry point the sessions
+// use for it (the dictionary oracle treats them as one key: ParseQuery+Validate
+// and LoadQuery must agree).
+type isoResult struct {
+	A string `json:"a"` // L: LoadSchema error; V: ParseQuery + validator.Validate
+	B string `json:"b"` // V: gqlparser.LoadQuery; L: a second LoadSchema of the same text
+}
+
+// evalIsolated computes the result for a key in this process, now.
+func evalIsolated(k *isoKey) (res isoResult) {
 	p := protect(func() {
 		sc, err := gqlparser.LoadSchema(&ast.Source{Name: k.SchemaName, Input: k.Schema})
 		if k.Kind == "L" {
-			out = gen.RenderError(err)
+			res.A = gen.RenderError(err)
+			_, err2 := gqlparser.LoadSchema(&ast.Source{Name: k.SchemaName, Input: k.Schema})
+			res.B = gen.RenderError(err2)
 			return
 		}
 		if err != nil {
-			out = "schema does not load: " + gen.RenderError(err)
+			res.A = "schema does not load: " + gen.RenderError(err)
+			res.B = res.A
 			return
 		}
 		_, errs := validateText(sc, k.Doc)
-		out = gen.RenderErrors(errs)
+		res.A = gen.RenderErrors(errs)
+		_, errs2 := gqlparser.LoadQuery(sc, k.Doc)
+		res.B = gen.RenderErrors(errs2)
 	})
 	if p != "" {
-		return p
+		if res.A == "" {
+			res.A = p
+		}
+		if res.B == "" {
+			res.B = p
+		}
 	}
-	return out
+	return
 }
 
 // c10OneMain: evaluate exactly one key read from stdin; nothing else has
@@ -800,7 +823,8 @@ func c10OneMain(args []string) {
 	if err != nil || json.Unmarshal(b, &k) != nil {
 		fatal(2, "c10-one: bad input")
 	}
-	os.Stdout.WriteString(evalIsolated(&k))
+	out, _ := json.Marshal(evalIsolated(&k))
+	os.Stdout.Write(out)
 }
 
 // c10IsolatedMain: for the keys of --in assigned to this part, spawn one fresh
@@ -833,56 +857,25 @@ func c10IsolatedMain(args []string) {
 			fatal(2, "c10-isolated: child failed for key %s: %v\n%s", k.TK, err, se.String())
 		}
 		compared++
-		if hashStr(so.String()) != k.Hash {
-			x, y := firstDiffLine(k.Rendering, so.String())
-			rule := ruleOfLine(x)
-			if x == "" {
-				rule = ruleOfLine(y)
+		var ir isoResult
+		if json.Unmarshal(so.Bytes(), &ir) != nil {
+			fatal(2, "c10-isolated: child output unreadable for key %s", k.TK)
+		}
+		for _, alone := range []string{ir.A, ir.B} {
+			if hashStr(alone) != k.Hash {
+				x, y := firstDiffLine(k.Rendering, alone)
+				rule := ruleOfLine(x)
+				if x == "" {
+					rule = ruleOfLine(y)
+				}
+				bad = append(bad, isoMismatch{Key: k, Isolated: alone, Rule: rule})
+				break
 			}
-			bad = append(bad, isoMismatch{Key: k, Isolated: so.String(), Rule: rule})
 		}
 	}
 	writeJSON(*out, map[string]interface{}{"compared": compared, "mismatches": bad})
 }
 
-// c10HistoryReplayMain replays a history-dependence witness: the session is
-// re-run in this process (same history as when it was found) and the key is
-// evaluated again in a fresh process; the violation reproduces when the two
-// still differ.
-func c10HistoryReplay(rp *c10Replay) bool {
-	r := runSession(rp.Session, false)
-	var inSession string
-	found := false
-	for _, o := range r.obs {
-		if o.Key == rp.HistoryKey.Key && o.Op == rp.HistoryKey.Op {
-			inSession, found = o.Rendering, true
-		}
-	}
-	if !found {
-		fatal(2, "history replay: the session no longer produces observation %s at op %d", rp.HistoryKey.Key, rp.HistoryKey.Op)
-	}
-	k := rp.HistoryKey.Iso
-	b, _ := json.Marshal(k)
-	cmd := exec.Command(os.Args[0], "c10-one")
-	cmd.Stdin = bytes.NewReader(b)
-	var so bytes.Buffer
-	cmd.Stdout = &so
-	if err := cmd.Run(); err != nil {
-		fatal(2, "history replay: child failed: %v", err)
-	}
-	if so.String() != inSession {
-		x, y := firstDiffLine(inSession, so.String())
-		fmt.Printf("REPRODUCED class=%s\n  key=%s op %d: after this session's history vs alone in a fresh process\n  %s  <>  %s\n", rp.Class, rp.HistoryKey.Key, rp.HistoryKey.Op, x, y)
-		return true
-	}
-	return false
-}
-
-type historyKey struct {
-	Key string `json:"key"` // observation key inside the session (L|i or V|i|j)
-	Op  int    `json:"op"`
-	Iso isoKey `json:"texts"`
-}
 
 const fnvPrime64 = 0x100000001b3
 
@@ -939,7 +932,8 @@ type c10Replay struct {
 	Site      string   `json:"site"`
 	Replay    bool     `json:"replayable"`
 	Confirmed string   `json:"confirmed_on_real_runtime,omitempty"`
-	HistoryKey *historyKey `json:"history_key,omitempty"`
+	HistoryKey *isoKey    `json:"history_key,omitempty"` // evaluated after the sessions and alone in a fresh process
+	History    []*Session `json:"history,omitempty"`     // sessions executed before Session in the same process
 	Note      string   `json:"note,omitempty"`
 }
 
@@ -1005,7 +999,7 @@ func minimiseC10(s *Session, w *Witness) (*Session, *Witness) {
 		}
 		return false
 	}
-	deadline := time.Now().Add(60 * time.Second)
+	deadline := time.Now().Add(20 * time.Second)
 	// 1. drop operations
 	for pass := 0; pass < 3; pass++ {
 		changed := false
@@ -1237,35 +1231,9 @@ func c10ReplayMain(args []string) {
 	if rp.Session == nil {
 		fatal(2, "replay file has no session")
 	}
-	if instrumented() {
-		// an order rule naming a map-range site that this tree does not have is
-		// inapplicable (the iteration it perturbed is gone): it is dropped, and the
-		// rest of the replay decides
-		for i, op := range rp.Session.Ops {
-			var keep []OrderRuleJ
-			for _, r := range op.Orders {
-				if siteID(r.Site) < 0 {
-					fmt.Printf("note: map-range site %s does not exist in this tree; its order rule is inapplicable and skipped\n", r.Site)
-					continue
-				}
-				keep = append(keep, r)
-			}
-			rp.Session.Ops[i].Orders = keep
-		}
-	}
-	rp.Session.Explicit = true
-	if rp.HistoryKey != nil {
-		if c10HistoryReplay(&rp) {
-			os.Exit(1)
-		}
-		fmt.Println("NOT-REPRODUCED")
-		return
-	}
-	r := runSession(rp.Session, false)
-	w := checkObs(rp.Session, r.obs)
+	class, w := replayC10(&rp, true)
 	res := map[string]interface{}{"reproduced": w != nil}
 	if w != nil {
-		class, _ := classOf(rp.Session, w)
 		res["class"] = class
 		res["witness"] = w
 		fmt.Printf("REPRODUCED class=%s\n  key=%s ops %d vs %d\n  %s\n", class, w.Key, w.OpFirst, w.OpLater, w.FirstDiffLine)
@@ -1384,59 +1352,3 @@ func c10ConfirmMain(args []string) {
 }
 
 
-// c10HistoryWitnessMain turns one isolated-oracle mismatch into a minimised
-// replay file. Every candidate runs in a fresh process (the state that makes
-// the result history-dependent lives in the process).
-func c10HistoryWitnessMain(args []string) {
-	fs := flag.NewFlagSet("c10-history-witness", flag.ExitOnError)
-	in := fs.String("in", "", "mismatch (JSON, one isoMismatch)")
-	out := fs.String("out", "", "replay file to write")
-	budget := fs.Duration("budget", 60*time.Second, "minimisation budget")
-	fs.Parse(args)
-	var m isoMismatch
-	readJSON(*in, &m)
-	sess := genSession(m.Key.Session, m.Key.Source)
-	sess.Weights = [5]uint8{}
-	sess.Mix = "canonical"
-	sess.Explicit = true
-	class := "disagree-history|rule=" + m.Rule
-	rp := &c10Replay{Format: "verif-c10-history/1", Property: "C10", Class: class, Session: sess, Replay: true,
-		HistoryKey: &historyKey{Key: m.Key.ObsKey, Op: m.Key.Op, Iso: m.Key},
-		Witness:    &Witness{Key: m.Key.ObsKey, Kind: "history", OpLater: m.Key.Op, RenderingFirst: m.Isolated, RenderingLater: m.Key.Rendering, FirstDiffLine: "alone in a fresh process  <>  after the session's earlier operations", Rule: m.Rule},
-		Note:       "the same texts give a different result depending on what the process did before: rendering_first is the key evaluated alone in a fresh process, rendering_later the same key at op_later of this session"}
-	tmp := *out + ".cand.json"
-	try := func(c *c10Replay) bool {
-		writeJSON(tmp, c)
-		cmd := exec.Command(os.Args[0], "c10-replay", tmp)
-		o, _ := cmd.CombinedOutput()
-		return strings.Contains(string(o), "REPRODUCED class="+class)
-	}
-	if !try(rp) {
-		os.Remove(tmp)
-		fatal(3, "history witness does not reproduce in a fresh process")
-	}
-	deadline := time.Now().Add(*budget)
-	// drop operations other than the witness op, newest first
-	for i := len(rp.Session.Ops) - 1; i >= 0 && time.Now().Before(deadline); i-- {
-		if i == rp.HistoryKey.Op {
-			continue
-		}
-		c := *rp
-		c.Session = cloneSession(rp.Session)
-		c.Session.Ops = append(c.Session.Ops[:i], c.Session.Ops[i+1:]...)
-		hk := *rp.HistoryKey
-		if i < hk.Op {
-			hk.Op--
-		}
-		c.HistoryKey = &hk
-		if try(&c) {
-			w := *rp.Witness
-			w.OpLater = hk.Op
-			c.Witness = &w
-			rp = &c
-		}
-	}
-	os.Remove(tmp)
-	writeJSON(*out, rp)
-	fmt.Printf("history witness: %d operations remain\n", len(rp.Session.Ops))
-}
